@@ -245,3 +245,32 @@ fn o3_3_acknowledge_any_valid_id() {
     kani::cover!(d == 2, "full acknowledgement");
     std::mem::forget(r0); std::mem::forget(r1); std::mem::forget(s);
 }
+
+//@h props=C20,C12,C06 tier=quick timeout=1200 role=sender-stale-multifragment
+//@fn PacketSender::{enqueue_packet, emit_packet, acknowledge}, alloc_size
+//@bound W=4, base 2^20-1; queue = [TimeSensitive 1449 bytes (two fragments, not a multiple of the fragment size), Reliable 2 bytes]; a step() intervenes before the flush (flush ids differ by any amount), then the peer acknowledges everything
+#[kani::proof]
+#[kani::unwind(5)]
+fn o20_1_stale_multifragment_time_sensitive() {
+    let base = 0xFFFFF;
+    let mut s = small(4, base, 1448 * 8);
+    let f0: u32 = kani::any();
+    let f1: u32 = kani::any();
+    kani::assume(f0 != f1);
+    s.enqueue_packet(vec![0u8; 1449].into_boxed_slice(), 0, SendMode::TimeSensitive, f0);
+    s.enqueue_packet(Box::new([8, 9]), 1, SendMode::Reliable, f0);
+    assert!(s.total_size() == 1451, "[C20] counts accepted bytes");
+    let r = s.emit_packet(f1);
+    match &r {
+        Some((p, resend)) => {
+            assert!(p.borrow().size() == 2 && *resend, "[C12] the stale TimeSensitive packet is never handed out");
+            assert!(p.borrow().datagram(0).sequence_id == base);
+        }
+        None => panic!("[C05] a sendable packet was withheld"),
+    }
+    assert!(s.total_size() == 2, "[C20] a discarded stale packet leaves the counter by exactly its payload size");
+    assert!(s.alloc == 2, "[C06] a discarded packet never counted against the peer's allocation");
+    s.acknowledge(s.next_id());
+    assert!(s.total_size() == 0 && s.alloc == 0, "[C20] zero once everything has been acknowledged");
+    std::mem::forget(r); std::mem::forget(s);
+}
